@@ -383,6 +383,6 @@ fn run_case(line: &str) -> String {
     format!("([{}], [{}], {}, [{}])", trace.join("; "), threads_obs.join("; "), dump, fr.join("; "))
 }
 
-fn main() {
+pub fn main() {
     vcommon::run_lines(run_case);
 }
